@@ -282,6 +282,8 @@ fn run_generator(sdl: &str, dir: &Path) -> String {
                 let q = quoted(&info);
                 if info.contains("as field names on vertex") && q.len() >= 3 {
                     format!("(conflict field {} {} {})", q[2], q[0], q[1])
+                } else if info.contains("as entrypoints") && q.len() >= 2 {
+                    format!("(conflict entrypoint {} {})", q[0], q[1])
                 } else if q.len() >= 2 {
                     format!("(conflict vertex {} {})", q[0], q[1])
                 } else {
@@ -440,7 +442,8 @@ const ESCAPED: &[&str] = &[
     "as", "break", "const", "continue", "crate", "else", "enum", "extern", "false", "fn", "for", "if", "impl",
     "in", "let", "loop", "match", "mod", "move", "mut", "pub", "ref", "return", "self", "Self", "static",
     "struct", "super", "trait", "true", "type", "unsafe", "use", "where", "while", "async", "await", "dyn",
-    "try", "macro_rules", "union",
+    "try", "macro_rules", "union", "abstract", "become", "box", "do", "final", "macro", "override", "priv",
+    "typeof", "unsized", "virtual", "yield", "gen", "_",
 ];
 
 fn ref_escape(n: String) -> String {
@@ -475,10 +478,14 @@ fn has_dup(v: &[String]) -> bool {
 }
 
 /// Does the schema contain names that the generated code would map to one item name in a namespace
-/// the documented checks are responsible for (vertex types; fields of one vertex type)?
+/// the checks are responsible for (per vertex type: module / function name, `Vertex` variant,
+/// conversion method; fields of one vertex type; entry points)?
 fn expected_conflict(d: &SchemaDesc) -> bool {
     let types: Vec<String> = d.types.iter().map(|t| ref_item(&t.name)).collect();
-    if has_dup(&types) {
+    let variants: Vec<String> = d.types.iter().map(|t| ref_variant(&t.name)).collect();
+    let conversions: Vec<String> = variants.iter().map(|v| derive_snake(v)).collect();
+    let entries: Vec<String> = d.root.iter().map(|e| ref_item(&e.name)).collect();
+    if has_dup(&types) || has_dup(&variants) || has_dup(&conversions) || has_dup(&entries) {
         return true;
     }
     d.types.iter().any(|t| {
@@ -540,16 +547,21 @@ fn panic_cause(d: &SchemaDesc, answer: &str) -> String {
 
 /// Why an accepted schema's stub does not compile, in terms of the schema's names.
 fn compile_cause(d: &SchemaDesc) -> String {
-    for (p, is_edge, _first, last) in all_params(d) {
-        let n = p.name.as_str();
-        if (is_edge && n == "contexts")
-            || n == "_resolve_info"
-            || n == "resolve_info"
-            || NOT_AN_IDENT.contains(&n)
-            || (n == "parameters" && !last)
-        {
-            return "param-binding".into();
-        }
+    let clash = |params: &[Param], is_edge: bool| {
+        let ids: Vec<String> = params.iter().map(|p| ref_escape(p.name.clone())).collect();
+        let n = ids.len();
+        has_dup(&ids)
+            || ids.iter().enumerate().any(|(i, id)| {
+                (is_edge && id == "contexts")
+                    || id == "_resolve_info"
+                    || id == "resolve_info"
+                    || (id == "parameters" && i + 1 < n)
+            })
+    };
+    if d.root.iter().any(|e| clash(&e.params, false))
+        || d.types.iter().any(|t| t.edges().any(|(_, ps)| clash(ps, true)))
+    {
+        return "param-binding".into();
     }
     let variants: Vec<String> = d.types.iter().map(|t| ref_variant(&t.name)).collect();
     if has_dup(&variants) {
